@@ -310,7 +310,8 @@ fn c17() {
     for (appenders, per) in [(1u64, 1u64), (1, 2), (2, 1)] {
         jobs.push(Job { harness: "c17", cfg: json!({"appenders": appenders, "per": per, "background": true, "pb": 2}) });
     }
-    finish(rep, jobs, "try_append from 1-3 threads racing the drop of the attach handle (and a re-attach of a second sink), with a recording sink whose handle marks it closed on drop and with a real background queue as the attached sink, all schedules within the preemption bound: every entry is either handed back unchanged or accepted by exactly one sink before that sink was closed; with a background queue every accepted entry reaches the stream and the detach drains, flushes and closes it; afterwards the global is detached.");
+    jobs.push(Job { harness: "c17_attach", cfg: json!({"pb": pb}) });
+    finish(rep, jobs, "Two threads attaching at the same moment (exactly one handle, the other call panics, the winner's sink stays attached until its own handle is dropped). try_append from 1-3 threads racing the drop of the attach handle (and a re-attach of a second sink), with a recording sink whose handle marks it closed on drop and with a real background queue as the attached sink, all schedules within the preemption bound: every entry is either handed back unchanged or accepted by exactly one sink before that sink was closed; with a background queue every accepted entry reaches the stream and the detach drains, flushes and closes it; afterwards the global is detached.");
 }
 
 fn c20() {
@@ -336,5 +337,8 @@ fn c20() {
         add(json!({"updaters": [[["c", "x", 1]], [["c", "x", 2]], [["c", "x", 4]]], "readouts": 2, "pb": 3}));
         add(json!({"updaters": [[["c", "x", 1], ["h", "y", 5], ["g", "z", 1]], [["c", "x", 2], ["h", "y", 6], ["g", "z", 2]]], "readouts": 3, "pb": 3}));
     }
-    finish(rep, jobs, "1-3 updater threads x 1-3 operations (counter increments on shared and distinct keys, histogram records, gauge sets; handles registered up front or on first use) against 1-3 readouts on the main thread plus a final readout, all schedules within the preemption bound, counters and gauges on loom atomics: per key the reported counter deltas sum to the total incremented, histogram occurrences sum to the number of records, the gauge reports the last value set.");
+    add(json!({"pb": pb}));
+    let n = jobs.len();
+    jobs[n - 1].harness = "c20_describe";
+    finish(rep, jobs, "Two threads describing (and incrementing) their own metric at the same moment: the readout writes both with the described unit. 1-3 updater threads x 1-3 operations (counter increments on shared and distinct keys, histogram records, gauge sets; handles registered up front or on first use) against 1-3 readouts on the main thread plus a final readout, all schedules within the preemption bound, counters and gauges on loom atomics: per key the reported counter deltas sum to the total incremented, histogram occurrences sum to the number of records, the gauge reports the last value set.");
 }
